@@ -38,6 +38,11 @@ pub enum Effect {
     Set(u8, i64),
     /// `require` marker k
     Require(u8),
+    /// the component's work (its traced execute event, a possible fault point) happens inside
+    /// `state.holding::<marker k>(..)` when marker k (harness types only, k % 4) is visible; no other effect
+    Hold(u8),
+    /// `state.entry::<marker k>().or_insert(v)` (k % 4): creates the marker in the CURRENT scope unless some scope holds it
+    EntryInsert(u8, i64),
 }
 
 #[derive(Clone, Debug, Serialize, Deserialize, PartialEq)]
@@ -200,8 +205,18 @@ impl Component<RealP> for LeafC {
         Ok(())
     }
     fn execute(&self, _p: &RealP, state: &mut State<RealP>) -> ExecResult<()> {
+        if let Effect::Hold(k) = &self.effect {
+            let id = self.id;
+            let visible = with_type!(*k % 4, T => state.contains::<T>());
+            if visible {
+                return with_type!(*k % 4, T => state.holding::<T>(|_t, _rest| emit(Ev::Exec(id))));
+            }
+        }
         emit(Ev::Exec(self.id))?;
         match &self.effect {
+            Effect::EntryInsert(k, v) => {
+                with_type!(*k % 4, T => { state.entry::<T>().or_insert(T::from(*v)); });
+            }
             Effect::Bump => {
                 state.try_borrow_mut::<Counter>()?.0 += 1;
             }
@@ -392,6 +407,12 @@ impl Model {
                         Effect::Set(k, v) => {
                             if let Some(s) = self.scopes.iter_mut().rev().find(|s| s.markers.contains_key(k)) {
                                 s.markers.insert(*k, *v);
+                            }
+                        }
+                        Effect::EntryInsert(k, v) => {
+                            let k = *k % 4;
+                            if !self.visible(k) {
+                                self.scopes.last_mut().unwrap().markers.insert(k, *v);
                             }
                         }
                         _ => {}
@@ -854,6 +875,8 @@ fn effect_strategy() -> impl Strategy<Value = Effect> {
     prop_oneof![
         2 => Just(Effect::None),
         3 => Just(Effect::Bump),
+        2 => (0u8..4).prop_map(Effect::Hold),
+        2 => (0u8..4, 150i64..199).prop_map(|(k, v)| Effect::EntryInsert(k, v)),
         3 => (0u8..N_MARKERS, 0i64..50).prop_map(|(k, v)| Effect::Insert(k, v)),
         1 => (0u8..N_MARKERS, 50i64..99).prop_map(|(k, v)| Effect::InitInsert(k, v)),
         3 => (0u8..N_MARKERS, 100i64..150).prop_map(|(k, v)| Effect::Set(k, v)),
@@ -906,7 +929,7 @@ pub fn run_all(ctx: &mut Ctx, replay: Option<&Path>) {
         return;
     }
     ctx.regressions(&k);
-    let kinds3 = vec![Effect::Bump, Effect::Insert(4, 41), Effect::Set(0, 142)];
+    let kinds3 = vec![Effect::Bump, Effect::Insert(4, 41), Effect::Set(0, 142), Effect::Hold(0), Effect::EntryInsert(1, 171)];
     match ctx.tier {
         crate::engine::Tier::Quick => {
             ctx.exhaustive(&k, "all trees with <= 3 nodes x scripts {[],[T],[T,T]} / {[T],[F]} x 3 leaf effects x every single fault point", exhaustive_cases(3, kinds3.clone()));
